@@ -9,33 +9,28 @@
 (* the lock is free); a section during which a second lock is requested,   *)
 (* or which may never end, is split into acquire / inner steps / release.  *)
 (*                                                                         *)
-(* The module describes two machines at once.  `Dev` (a set of names) lists *)
-(* the places where the code as written knowingly deviates from the        *)
-(* intended design; each deviation is a NAMED action (or a named branch):  *)
-(*                                                                         *)
-(*   "CloseSplit"      SFileCloseArchive purges FILES in one critical      *)
-(*                     section and removes the archive from ARCHIVES in a  *)
-(*                     second one (lib.rs:329-349)              [F-C19-b]  *)
-(*   "NoFindPurge"     SFileCloseArchive never touches FIND_HANDLES        *)
-(*                                                              [F-C19-b]  *)
-(*   "FindLate"        SFileFindFirstFile releases ARCHIVES before it      *)
-(*                     inserts into FIND_HANDLES (lib.rs:1941-2011)        *)
-(*   "FindNextNested"  SFileFindNextFile calls fill_find_data (locks       *)
-(*                     ARCHIVES) while it holds FIND_HANDLES               *)
-(*                     (lib.rs:2045-2070, 2146)                            *)
-(*   "VerifyRelock"    SFileVerifyArchive(SFILE_VERIFY_ALL_FILES) calls    *)
-(*                     SFileVerifyFile, which locks ARCHIVES, while it     *)
-(*                     holds ARCHIVES (lib.rs:1271,1351,1124)   [F-C19-a]  *)
-(*   "ProbeForever"    SFileAddFileEx -> MutableArchive::add_to_hash_table *)
-(*                     probes for ever when no slot is free, holding       *)
-(*                     ARCHIVES                                 [F-C06-b]  *)
-(*   "HasFileStale"    SFileHasFile / SFileVerifyFile on a writable        *)
-(*                     archive consult the read-only snapshot taken at     *)
-(*                     open (archive_handle.archive()), not the session    *)
-(*                     state (lib.rs:637,1131)                  [F-C19-c]  *)
-(*                                                                         *)
-(* Dev = {} is the intended machine (it satisfies every invariant below);  *)
-(* Dev = CodeDev is lib.rs as written.                                     *)
+(* `Dev` (a set of names) switches NAMED DEVIATIONS on.  Dev = {} is lib.rs AS IT IS WRITTEN NOW   *)
+(* (after the fix commits 872df55, d1f6866, def3ee6 in storm-ffi and 20d617c in wow-mpq) and it    *)
+(* satisfies every invariant below.  Each deviation is the code as it was before one of those      *)
+(* commits (or a lock-order mutant); for each of them TLC must refute an invariant                 *)
+(* (MC_StormFfi_dev<Name>.cfg, "must-refute"), and the counterexample is replayed on the real code:*)
+(*                                                                                                 *)
+(*   "CloseSplit"      (before d1f6866) SFileCloseArchive purged FILES in one critical section and *)
+(*                     removed the archive from ARCHIVES in a second one             [F-C19-b]     *)
+(*   "NoFindPurge"     (before d1f6866) SFileCloseArchive never touched FIND_HANDLES [F-C19-b]     *)
+(*   "FindLate"        (before d1f6866) SFileFindFirstFile released ARCHIVES before it inserted    *)
+(*                     into FIND_HANDLES                                                           *)
+(*   "FindNextNested"  (before d1f6866) SFileFindNextFile called fill_find_data (locks ARCHIVES)    *)
+(*                     while holding FIND_HANDLES: harmless with the old close, a lock-order        *)
+(*                     inversion with the new one                                                  *)
+(*   "VerifyRelock"    (before 872df55) SFileVerifyArchive(SFILE_VERIFY_ALL_FILES) called           *)
+(*                     SFileVerifyFile, which locks ARCHIVES, while holding ARCHIVES  [F-C19-a]     *)
+(*   "ProbeForever"    (before 20d617c) MutableArchive::add_to_hash_table probed for ever on a full *)
+(*                     table, SFileAddFileEx holding ARCHIVES                         [F-C06-b]     *)
+(*   "HasFileStale"    (before def3ee6) SFileHasFile / SFileVerifyFile on a writable archive        *)
+(*                     consulted the read-only snapshot taken at open                 [F-C19-c]     *)
+(*   "CloseFileNested" (mutant, selftest/C19/mutant-6) SFileCloseFile takes ARCHIVES while it       *)
+(*                     holds FILES: lock-order inversion against SFileOpenFileEx                    *)
 (***************************************************************************)
 EXTENDS Integers, Sequences, FiniteSets, TLC
 
@@ -49,7 +44,7 @@ CONSTANTS
                   \* the allocation scheme is not part of the property)
 
 CodeDev == {"CloseSplit", "NoFindPurge", "FindLate", "FindNextNested", "VerifyRelock", "ProbeForever",
-            "HasFileStale"}
+            "HasFileStale", "CloseFileNested"}
 
 VARIABLES
     vdisk,     \* [ArchFiles -> [Names -> content]]   what is on disk
@@ -186,7 +181,7 @@ DiskAfterDrop(a) == IF varch[a].mut THEN [vdisk EXCEPT ![varch[a].file] = varch[
 CA_Null(t) ==
     /\ At(t, "CloseArchive0") /\ Arg(t).h = 0
     /\ Finish(t, 0, <<>>, "invalid_handle") /\ UNCHANGED <<tables, vlock, vclosed>>
-\* --- as written: two separate critical sections, FIND_HANDLES forgotten
+\* --- deviation CloseSplit (before d1f6866): two separate critical sections, FIND_HANDLES forgotten
 CA_PurgeFiles_Split(t) ==                   \* [FILES]
     /\ "CloseSplit" \in Dev
     /\ At(t, "CloseArchive0") /\ Arg(t).h # 0 /\ CanLock("FILES")
@@ -202,7 +197,7 @@ CA_Remove_Split(t) ==                       \* [ARCH]
             /\ Finish(t, 1, <<>>, "ok")
        ELSE /\ Finish(t, 0, <<>>, "invalid_handle") /\ UNCHANGED <<vdisk, varch, vfinds, vclosed>>
     /\ UNCHANGED <<vcap, vlist, vfiles, vnext, vlock>>
-\* --- intended: remove the archive first and purge both tables before ARCHIVES is released
+\* --- as written: remove the archive first and purge both tables before ARCHIVES is released
 CA_Remove(t) ==                             \* acquire ARCH; remove
     /\ "CloseSplit" \notin Dev
     /\ At(t, "CloseArchive0") /\ Arg(t).h # 0 /\ CanLock("ARCH")
@@ -241,9 +236,15 @@ OF_Lookup(t) ==                             \* acquire ARCH; find_file + read_fi
        THEN Finish(t, 0, <<>>, "invalid_handle") /\ UNCHANGED vlock
        ELSE IF Arg(t).name \notin Names \/ View(varch[a])[Arg(t).name] = None
        THEN Finish(t, 0, <<>>, "not_found") /\ UNCHANGED vlock
-       ELSE /\ vfr' = [vfr EXCEPT ![t].dat = View(varch[a])[Arg(t).name]]
-            /\ vlock' = [vlock EXCEPT !["ARCH"] = t]
-            /\ Goto(t, "OpenFileEx1")
+       ELSE \/ /\ vfr' = [vfr EXCEPT ![t].dat = View(varch[a])[Arg(t).name]]
+               /\ vlock' = [vlock EXCEPT !["ARCH"] = t]
+               /\ Goto(t, "OpenFileEx1")
+            \* find_file succeeds but read_file fails (ERROR_FILE_CORRUPT).  For a writable archive this is an
+            \* outcome the Rust API itself produces (MutableArchive::read_file cannot decode a compressed file
+            \* added in the current session until the archive is reopened -- wow-mpq's business, C06); the
+            \* trace specification accepts it only when the Rust API fails on the same name as well.
+            \/ /\ varch[a].mut
+               /\ Finish(t, 0, <<>>, "corrupt") /\ UNCHANGED vlock
     /\ UNCHANGED <<tables, vclosed>>
 OF_Id(t) ==                                 \* ARCH held; [NEXT]
     /\ At(t, "OpenFileEx1") /\ CanLock("NEXT")
@@ -263,10 +264,23 @@ FileCall(t, fn) == At(t, Entry(fn)) /\ (Arg(t).h = 0 \/ CanLock("FILES"))
 BadFile(t)      == Arg(t).h = 0 \/ Arg(t).h \notin DOMAIN vfiles
 
 CloseFile(t) ==
+    /\ ("CloseFileNested" \notin Dev \/ Arg(t).h = 0)
     /\ FileCall(t, "CloseFile")
     /\ IF BadFile(t) THEN Finish(t, 0, <<>>, "invalid_handle") /\ UNCHANGED vfiles
        ELSE vfiles' = Drop(vfiles, {Arg(t).h}) /\ Finish(t, 1, <<>>, "ok")
     /\ UNCHANGED <<vdisk, vcap, vlist, varch, vfinds, vnext, vlock, vclosed>>
+
+\* --- mutant: FILES is kept while ARCHIVES is requested (FILES -> ARCH; SFileOpenFileEx goes ARCH -> FILES)
+CF_Acquire(t) ==
+    /\ "CloseFileNested" \in Dev
+    /\ At(t, "CloseFile0") /\ Arg(t).h # 0 /\ Acquire(t, "FILES")
+    /\ Goto(t, "CloseFile1") /\ UNCHANGED <<tables, vfr, vclosed>>
+CF_Remove(t) ==
+    /\ At(t, "CloseFile1") /\ CanLock("ARCH")
+    /\ IF BadFile(t) THEN Finish(t, 0, <<>>, "invalid_handle") /\ UNCHANGED vfiles
+       ELSE vfiles' = Drop(vfiles, {Arg(t).h}) /\ Finish(t, 1, <<>>, "ok")
+    /\ Release(t, "FILES")
+    /\ UNCHANGED <<vdisk, vcap, vlist, varch, vfinds, vnext, vclosed>>
 
 \* n1 = to_read (u32; the trace clamps it to the buffer it really supplies)
 ReadFile(t) ==
@@ -374,7 +388,9 @@ ExtractFile(t) ==                           \* lib.rs:1008-1090
     /\ ArchCall(t, "ExtractFile")
     /\ IF BadArch(t) THEN Finish(t, 0, <<>>, "invalid_handle")
        ELSE LET m == View(varch[Arg(t).h]) IN
-            IF Arg(t).name \in Names /\ m[Arg(t).name] # None THEN Finish(t, 1, m[Arg(t).name], "ok")
+            IF Arg(t).name \in Names /\ m[Arg(t).name] # None
+            THEN \/ Finish(t, 1, m[Arg(t).name], "ok")
+                 \/ varch[Arg(t).h].mut /\ Finish(t, 0, <<>>, "corrupt")      \* see OF_Lookup
             ELSE Finish(t, 0, <<>>, "not_found")
     /\ UNCHANGED <<tables, vlock, vclosed>>
 
@@ -532,7 +548,7 @@ Step(t) ==
     \/ OA_Open(t) \/ OA_Id(t) \/ OA_Insert(t)
     \/ CA_Null(t) \/ CA_PurgeFiles_Split(t) \/ CA_Remove_Split(t) \/ CA_Remove(t) \/ CA_PurgeFiles(t) \/ CA_PurgeFinds(t)
     \/ OF_Null(t) \/ OF_Lookup(t) \/ OF_Id(t) \/ OF_Insert(t)
-    \/ CloseFile(t) \/ ReadFile(t) \/ GetFileSize(t) \/ SetFilePointer(t) \/ GetFileName(t)
+    \/ CloseFile(t) \/ CF_Acquire(t) \/ CF_Remove(t) \/ ReadFile(t) \/ GetFileSize(t) \/ SetFilePointer(t) \/ GetFileName(t)
     \/ GI_File(t) \/ GI_Archive(t)
     \/ HasFile(t) \/ VerifyFile(t) \/ EnumFiles(t) \/ GetArchiveName(t) \/ ExtractFile(t)
     \/ AddFile(t) \/ RemoveFile(t) \/ RenameFile(t) \/ FlushArchive(t)
@@ -563,7 +579,7 @@ IdsUnique ==
     /\ DOMAIN varch \cap DOMAIN vfiles = {} /\ DOMAIN varch \cap DOMAIN vfinds = {}
     /\ DOMAIN vfiles \cap DOMAIN vfinds = {}
 \* a thread never waits for a Mutex it owns itself (std::sync::Mutex is not re-entrant)
-Waits(t) == CASE vpc[t] \in {"VerifyArchive1", "FindNext1", "GetFileInfo1", "CloseArchive1", "FindFirst1"} -> {"ARCH"}
+Waits(t) == CASE vpc[t] \in {"VerifyArchive1", "FindNext1", "GetFileInfo1", "CloseArchive1", "FindFirst1", "CloseFile1"} -> {"ARCH"}
               [] vpc[t] \in {"OpenArchive1", "OpenFileEx1", "FindFirst2"} -> {"NEXT"}
               [] vpc[t] \in {"OpenFileEx2", "CloseArchive2"} -> {"FILES"}
               [] vpc[t] \in {"FindFirst3", "CloseArchive3"} -> {"FINDS"}
